@@ -46,6 +46,12 @@ def foreign_value(rng, kind):
         v["default"] = [[G.rdouble(rng), G.rint64(rng), G.rint32(rng), rng.choice([0, 1, -1, 77, 2 ** 31 - 1])] for _ in range(fcount(rng, range(0, 21)))]
         v["adjusted"] = [[G.rdouble(rng), G.rint64(rng), G.rint32(rng), rng.choice([0, 5, -9])] for _ in range(fcount(rng, range(0, 21)))]
         v["extra"] = fextra(rng)
+        if rng.random() < 0.15 and v["default"]:
+            # grids that are equal under == but not byte for byte: the same markers, one offset a zero of the other sign
+            v["adjusted"] = [list(m) for m in v["default"]]
+            k = rng.randrange(len(v["default"]))
+            v["default"][k][0] = "0000000000000000"
+            v["adjusted"][k][0] = "8000000000000000"
         return v
     if kind == "v2_quick_cues":
         v = G.v2_quick_cues(rng, bool_flag=False)
